@@ -394,6 +394,11 @@ def _parse_projection(proj_str: str) -> dict | list:
                 )
             if k in result:
                 raise ValueError(f"Duplicate rank entry: {k}. Must be unique. {s}")
+            if not v or re.search(r"[\[\]{}=]", v):
+                raise ValueError(
+                    f"Invalid projection expression '{v}' for rank {k}. Must be a "
+                    f"non-empty expression of rank variables. {s}"
+                )
             result[k] = v
         else:
             if not part:
